@@ -100,7 +100,8 @@ def _method_battery():
     operation and must give the path's result (value or exception type)"""
     tests = {
         "rpartition": lambda s, i: s.rpartition("$"), "partition": lambda s, i: s.partition("$"), "rsplit": lambda s, i: s.rsplit(" ", 1),
-        "split": lambda s, i: s.split(), "split$": lambda s, i: s.split("$"), "splitlines": lambda s, i: s.splitlines(), "splitlines+": lambda s, i: s.splitlines(True),
+        "split": lambda s, i: s.split(), "split$": lambda s, i: s.split("$"), "split-ab": lambda s, i: s.split("ab"), "split1": lambda s, i: s.split("a", 1), "part-ab": lambda s, i: s.partition("ab"), "part-self": lambda s, i: s.partition(s.strip()) if s.strip() else None,
+        "rpart-ab": lambda s, i: s.rpartition("ab"), "splitlines": lambda s, i: s.splitlines(), "splitlines+": lambda s, i: s.splitlines(True),
         "rfind": lambda s, i: s.rfind("a"), "find": lambda s, i: s.find("b"), "index": lambda s, i: s.index("a"), "count": lambda s, i: s.count("a"),
         "count2": lambda s, i: s.count("aa"), "replace": lambda s, i: s.replace("a", "bc"), "replace1": lambda s, i: s.replace("ab", "", 1),
         "removeprefix": lambda s, i: s.removeprefix("a"), "removesuffix": lambda s, i: s.removesuffix("ab"), "rjust": lambda s, i: s.rjust(5, "0"),
